@@ -40,6 +40,7 @@ func (c07) Gen(tier string, seed int64) []fw.Unit {
 		}
 	}
 	us = append(us, fw.U("c3993.long", nil, "very-long", 0), fw.U("c3993.long", nil, "very-long", 1))
+	us = append(us, fw.U("c3993.decorated", nil, "decorated", 0), fw.U("c3993.decorated", nil, "decorated", 1))
 	us = append(us, fw.U("c3993.collide", nil, "hash-collision-pairs", 0), fw.U("c3993.collide", nil, "hash-collision-pairs", 1))
 	r := rngFor(seed, "C07")
 	n := 100
@@ -188,6 +189,15 @@ func (p c07) Exec(c *fw.Ctx, u *fw.Unit) {
 					b, _ := hex.DecodeString(h)
 					c3993Check(c, fam, string(b), true, true)
 				}
+			}
+		}
+	case "c3993.decorated":
+		if u.Int(0) == 1 {
+			fam = "code93"
+		}
+		for _, base := range []string{"AB", "CODE 39", "a1", ""} {
+			for _, d := range decorate([]byte(base)) {
+				c3993AllMixes(c, fam, string(d), false)
 			}
 		}
 	case "c3993.long":
